@@ -381,6 +381,7 @@ use super::c03::*;
 #[kani::stub(<crate::ber::SnmpOid<'_> as core::convert::TryFrom<&str>>::try_from, stub_oid_from_str)]
 #[kani::stub(<crate::socket::v2c::SnmpV2cClientSocket as crate::socket::snmpsocket::SnmpSocket>::push_pdu, stub_push_pdu_v2c)]
 #[kani::stub(core::fmt::write, stub_fmt_write)]
+#[kani::stub(<std::io::Error as std::fmt::Display>::fmt, stub_ioerr_fmt)]
 fn g1_send_get_stubpush() {
     unsafe { rand::QUEUE[0] = 5; rand::DRAWN = 0; }
     script_oids([[43, 6, 1, 0]; 3]);
@@ -407,3 +408,59 @@ fn g3_send_inner_stubpush() {
     core::mem::forget(s);
     core::mem::forget(r);
 }
+#[kani::proof]
+#[kani::unwind(6)]
+#[kani::stub(alloc::fmt::format, stub_format)]
+#[kani::stub(core::fmt::write, stub_fmt_write)]
+#[kani::stub(<std::io::Error as std::fmt::Display>::fmt, stub_ioerr_fmt)]
+#[kani::stub(<crate::ber::SnmpOid<'_> as core::convert::TryFrom<&str>>::try_from, stub_oid_from_str)]
+#[kani::stub(<crate::socket::v2c::SnmpV2cClientSocket as crate::socket::snmpsocket::SnmpSocket>::push_pdu, stub_push_pdu_v2c)]
+fn g4_manual_send() {
+    unsafe { rand::QUEUE[0] = 5; rand::DRAWN = 0; }
+    script_oids([[43, 6, 1, 0]; 3]);
+    let mut s = SnmpV2cClientSocket::new("127.0.0.1:161".to_string(), "pub".to_string(), 0, 0, 0, 1_000_000_000).expect("socket");
+    let rid = s.get_request_id().get_next();
+    let pdu = <OpGet2 as PyOp<pyo3::pybacked::PyBackedStr>>::from_python(pyo3::pybacked::PyBackedStr::new("1.3.6"), rid).unwrap();
+    let r = s._send_inner(pdu);
+    assert!(r.is_ok());
+    assert!(s.get_io().tx_count == 1);
+    core::mem::forget(s);
+    core::mem::forget(r);
+}
+macro_rules! gvar {
+    ($name:ident, $body:expr) => {
+        #[kani::proof]
+        #[kani::unwind(6)]
+        #[kani::stub(alloc::fmt::format, stub_format)]
+        #[kani::stub(core::fmt::write, stub_fmt_write)]
+        #[kani::stub(<std::io::Error as std::fmt::Display>::fmt, stub_ioerr_fmt)]
+        #[kani::stub(<crate::ber::SnmpOid<'_> as core::convert::TryFrom<&str>>::try_from, stub_oid_from_str)]
+        #[kani::stub(<crate::socket::v2c::SnmpV2cClientSocket as crate::socket::snmpsocket::SnmpSocket>::push_pdu, stub_push_pdu_v2c)]
+        fn $name() {
+            script_oids([[43, 6, 1, 0]; 3]);
+            let mut s = SnmpV2cClientSocket::new("127.0.0.1:161".to_string(), "pub".to_string(), 0, 0, 0, 1_000_000_000).expect("socket");
+            let pdu: SnmpPdu = $body;
+            let r = s._send_inner(pdu);
+            assert!(r.is_ok());
+            assert!(s.get_io().tx_count == 1);
+            core::mem::forget(s);
+            core::mem::forget(r);
+        }
+    };
+}
+static ST_OID: [u8; 3] = [43, 6, 1];
+gvar!(h1_from_python_const_rid, <OpGet2 as PyOp<pyo3::pybacked::PyBackedStr>>::from_python(pyo3::pybacked::PyBackedStr::new("1.3.6"), 5).unwrap());
+gvar!(h2_manual_static_oid, SnmpPdu::GetRequest(crate::snmp::get::SnmpGet { request_id: 5, vars: vec![oid(&ST_OID)] }));
+gvar!(h4_manual_stub_oid, SnmpPdu::GetRequest(crate::snmp::get::SnmpGet { request_id: 5, vars: vec![stub_oid_from_str("x").unwrap()] }));
+fn mk_res_oid() -> Result<SnmpOid<'static>, SnmpError> {
+    Ok(oid(&ST_OID))
+}
+gvar!(h6_result_static_oid, SnmpPdu::GetRequest(crate::snmp::get::SnmpGet { request_id: 5, vars: vec![mk_res_oid().unwrap()] }));
+static mut MUT_OID: [u8; 3] = [43, 6, 1];
+gvar!(h7_static_mut_oid, SnmpPdu::GetRequest(crate::snmp::get::SnmpGet { request_id: 5, vars: vec![oid(unsafe { &*core::ptr::addr_of!(MUT_OID) })] }));
+gvar!(h8_static_mut_write, { unsafe { OID_POS += 1; } SnmpPdu::GetRequest(crate::snmp::get::SnmpGet { request_id: 5, vars: vec![oid(&ST_OID)] }) });
+gvar!(h9_err_branch, { let r: Result<SnmpOid<'static>, SnmpError> = if unsafe { OID_POS } >= 3 { Err(SnmpError::InvalidData) } else { Ok(oid(&ST_OID)) }; SnmpPdu::GetRequest(crate::snmp::get::SnmpGet { request_id: 5, vars: vec![r.unwrap()] }) });
+static mut LOCAL_CTR: usize = 0;
+gvar!(h11_local_static_write, { unsafe { LOCAL_CTR = 7; } SnmpPdu::GetRequest(crate::snmp::get::SnmpGet { request_id: 5, vars: vec![oid(&ST_OID)] }) });
+gvar!(h12_local_static_incr, { unsafe { LOCAL_CTR += 1; } SnmpPdu::GetRequest(crate::snmp::get::SnmpGet { request_id: 5, vars: vec![oid(&ST_OID)] }) });
+gvar!(h13_wrapping_incr, { unsafe { LOCAL_CTR = LOCAL_CTR.wrapping_add(1); } SnmpPdu::GetRequest(crate::snmp::get::SnmpGet { request_id: 5, vars: vec![oid(&ST_OID)] }) });
